@@ -477,7 +477,9 @@ func (x *parserExec) doShrink() {
 func (x *parserExec) doReset(op POp) {
 	var data []byte
 	if !op.Nil {
-		if need := len(op.Data) + op.Cap; op.Reuse && x.prevReset != nil && cap(x.prevReset) >= need {
+		// (not for data Reset will refuse: the parser keeps its old content
+		// then, which may live in that very array)
+		if need := len(op.Data) + op.Cap; op.Reuse && x.prevReset != nil && cap(x.prevReset) >= need && len(op.Data) <= x.cc.BufferSize {
 			data = x.prevReset[:len(op.Data):need]
 		} else {
 			data = make([]byte, len(op.Data), len(op.Data)+op.Cap)
